@@ -55,6 +55,8 @@ def poly_expr(rng, xs, us):
         else:
             terms.append(["*", a, rng.choice(xs)])
             kinds.append("lin")
+    # identical terms would cancel symbolically (a - a): keep the first occurrence only
+    terms = [t for i, t in enumerate(terms) if t not in terms[:i]]
     e = terms[0]
     for t in terms[1:]:
         e = ["+", e, t] if rng.random() < 0.7 else ["-", e, t]
